@@ -49,7 +49,75 @@ PickPair == /\ stage = 4 /\ stage' = 2 /\ UNCHANGED <<rule, R, gene>>
             /\ \E g1 \in RandomSubset(3, GeneLocs(R)), g2 \in RandomSubset(3, GeneLocs(R)), g3 \in RandomSubset(2, GeneLocs(R)),
                   h1 \in RandomSubset(2, GeneHits), h2 \in RandomSubset(2, GeneHits), h3 \in RandomSubset(2, GeneHits) :
                  scene' = MkScene(R, <<g1, g2, g3>>, <<h1, h2, h3>>)
-Next == PickRule \/ PickRing \/ PickGene \/ PickPair
+(* one fixed arrangement besides the sampled ones, so that the negative control does not depend on the draw (RandomSubset is
+   not reproducible across runs): on a ring of 8 the gene at [0,2) scores 60 for a and lies two bases - over the origin -
+   from the gene with b at [5,6); r2 = minscore(a,50) and b with cutoff 3 anchors there, the stale-flag design measures
+   the long way round and misses it *)
+WitnessScene ==
+[ cutoff |-> 0,
+  L |-> 8,
+  circ |-> TRUE,
+  locs |->
+      << [parts |-> <<<<5, 6>>>>, strand |-> 1],
+         [parts |-> <<<<0, 2>>>>, strand |-> -1],
+         [parts |-> <<<<0, 1>>>>, strand |-> 1] >>,
+  hits |->
+      << <<[p |-> "b", s |-> 30]>>,
+         <<[p |-> "a", s |-> 60], [p |-> "c", s |-> 70]>>,
+         <<[p |-> "a", s |-> 40]>> >> ]
+WitnessRules ==
+<< [ cond |->
+         [ p |-> "a",
+           s |-> 0,
+           k |-> "id",
+           neg |-> FALSE,
+           opts |-> <<>>,
+           args |-> <<>> ],
+     hasExt |-> FALSE,
+     ext |->
+         [ p |-> "a",
+           s |-> 0,
+           k |-> "id",
+           neg |-> FALSE,
+           opts |-> <<>>,
+           args |-> <<>> ],
+     sup |-> <<>>,
+     name |-> "r1",
+     cutoff |-> 2,
+     nbhd |-> 2 ],
+   [ cond |->
+         [ p |-> "",
+           s |-> 0,
+           k |-> "and",
+           neg |-> FALSE,
+           opts |-> <<>>,
+           args |->
+               << [ p |-> "a",
+                    s |-> 50,
+                    k |-> "score",
+                    neg |-> FALSE,
+                    opts |-> <<>>,
+                    args |-> <<>> ],
+                  [ p |-> "b",
+                    s |-> 0,
+                    k |-> "id",
+                    neg |-> FALSE,
+                    opts |-> <<>>,
+                    args |-> <<>> ] >> ],
+     hasExt |-> FALSE,
+     ext |->
+         [ p |-> "a",
+           s |-> 0,
+           k |-> "id",
+           neg |-> FALSE,
+           opts |-> <<>>,
+           args |-> <<>> ],
+     sup |-> <<>>,
+     name |-> "r2",
+     cutoff |-> 3,
+     nbhd |-> 1 ] >>
+PickWitness == stage = 0 /\ stage' = 2 /\ rules' = WitnessRules /\ scene' = WitnessScene /\ UNCHANGED <<rule, R, gene>>
+Next == PickRule \/ PickRing \/ PickGene \/ PickPair \/ PickWitness
 Spec == Init /\ [][Next]_vars
 
 RR == RingOfScene(scene)
